@@ -50,7 +50,8 @@ def sub_document(sg, rng, dg):
     names = sorted(set(re.findall(r"\$(v\d+)", alltext)), key=lambda s: int(s[1:]))
     from gen import tstr, print_value
     decl = ("(" + ", ".join(f"${n}: {tstr(vars_[n][0])}" + (f" = {print_value(vars_[n][1])}" if vars_[n][1] else "") for n in names) + ")") if names else ""
-    q = f"subscription S{decl} {{ {body} }}" + "".join(f"\nfragment {fr[0]} on {fr[1]} {fr[2]}" for fr in dg.frags if fr[0] in seen)
+    extra = "query Other { __typename }\n" if rng.random() < 0.35 else ""
+    q = extra + f"subscription S{decl} {{ {body} }}" + "".join(f"\nfragment {fr[0]} on {fr[1]} {fr[2]}" for fr in dg.frags if fr[0] in seen)
     return q, f, {n: vars_[n] for n in names}
 
 async def explore(tier, seed, m):
@@ -90,8 +91,11 @@ async def explore(tier, seed, m):
             elif r < 0.2: q = q[: len(q) // 2] + " {"; kind = "syntax-error"
             log.clear(); b.calls.clear()
             resps = []
+            init = None
+            if rng.random() < 0.3:
+                init = {"d": [[f["name"], sg.value_for(f["type"], 1, 0.0)]]}
             try:
-                async for payload in b.engine.subscribe(q, operation_name=opn, variables=variables):
+                async for payload in b.engine.subscribe(q, operation_name=opn, variables=variables, initial_value=dec(init) if init is not None else None):
                     resps.append(payload)
             except Exception as e:
                 stats["problems"].append({"what": [f"subscribe raised {type(e).__name__}: {e}"[:300]], "query": q, "variables": variables, "kind": kind}); continue
